@@ -519,3 +519,10 @@ func canon(v ssa.Value) ssa.Value {
 	}
 	return v
 }
+
+func derefPtr(t types.Type) types.Type {
+	if pt, ok := t.Underlying().(*types.Pointer); ok {
+		return pt.Elem()
+	}
+	return t
+}
